@@ -12,7 +12,8 @@
 //!              single page, every PageRange form;
 //!  * `reorder` every sequence of length 1..=n, reverse, every swap(i,j), every move(i,j);
 //!  * `rotate`  every angle (enum and from_degrees incl. negative / >360) x every page range
-//!              form (every subset as a List, All, Single, Range);
+//!              form (every subset as a List, All, Single, Range); thorough tier also every
+//!              /Rotate assignment over {0,90,-90,450}^3 x every angle x every page subset;
 //!  * `merge`   every ordered pair of sources x a page-range menu on each input;
 //!  * `merge-of-split` every partitioning split mode followed by a merge of the parts.
 //! Oracle: the reference reader (refpdf) reads source and output; output page k must equal
